@@ -376,6 +376,7 @@ type obs struct {
 	stored  []int // sorted interned ids
 	heads   []int // tree.Heads(), sorted
 	entry   []int // head storage entry heads, sorted
+	root    int   // in-memory root (a snapshot), interned
 	parents map[int][]int
 	snaps   map[int]int
 	unknown []string
@@ -417,6 +418,12 @@ func (w *world) observe(i int) (o obs, err error) {
 	sort.Ints(o.stored)
 	rep.tree.Lock()
 	o.heads = w.intern(rep.tree.Heads())
+	o.root = -1
+	if rc := rep.tree.Root(); rc != nil {
+		if id, ok := w.ids[rc.Id]; ok {
+			o.root = id
+		}
+	}
 	rep.tree.Unlock()
 	e, err := rep.hs.GetEntry(ctx, w.treeId)
 	if err != nil {
@@ -477,7 +484,9 @@ func (w *world) advertisedDefect(o obs, m *message) string {
 	return ""
 }
 
-func (o obs) line() string { return "ok " + ints(o.stored) + " " + ints(o.heads) }
+func (o obs) line() string {
+	return "ok " + ints(o.stored) + " " + ints(o.heads) + " @" + fmt.Sprint(o.root)
+}
 
 // ---- steps --------------------------------------------------------------------------------
 
